@@ -74,6 +74,89 @@ Theorem sqrt_AddBackCrt_refines alloc segs n c : Arr_Proofs.ginv seg maxi (SCq L
     (forall i, i < n -> segs' i = segs i) /\ (n' = n \/ (n' = n + 1 /\ segs' n = alloc n)) /\ Arr_Proofs.ginv seg maxi (SCq L) n' (c + 1).
 Proof. intros. eapply (Arr_Proofs.AddBackCrt_refines seg idx alloc maxi (SCq L)); dq. Qed.
 
+Let cnt := Gen_SegSqrt.GetItemCount L.
+
+Lemma q_SCq_eq : SCq L = fst (seg_of L (maxi - 1)) + 1.
+Proof. unfold SCq. rewrite SegSqrt_Proofs.gen_seg_of by (try assumption; apply q_last). reflexivity. Qed.
+
+Lemma q_first_le s : 0 <= s < SCq L -> idx_of L s 0 <= maxi - 1.
+Proof.
+  intros Hs. pose proof q_last as Hm. rewrite q_SCq_eq in Hs.
+  destruct (Z_le_dec (idx_of L s 0) (maxi - 1)) as [|Hn]; [assumption|exfalso].
+  assert (X : maxi - 1 < idx_of L s 0) by lia.
+  apply (cap_lt_pure L s (maxi - 1) (proj1 HL) (proj1 Hs) (proj1 Hm)) in X. lia.
+Qed.
+
+Lemma q_first_index s : 0 <= s < SCq L -> 0 <= idx_of L s 0 <= maxi - 1 /\ seg (idx_of L s 0) = (s, 0).
+Proof.
+  intros Hs. pose proof q_last as Hm. pose proof (q_first_le s Hs) as Hle.
+  pose proof (cnt_pos L s (proj1 HL) (proj1 Hs)) as Hc.
+  destruct (roundtrip_rev L (proj1 HL) s 0 (proj1 Hs) (conj (Z.le_refl 0) Hc)) as [Rr R0].
+  split; [split; assumption|]. unfold seg. rewrite SegSqrt_Proofs.gen_seg_of; [exact Rr|exact HL64|]. destruct Hm. split; [assumption|]. lia.
+Qed.
+
+Lemma q_cnt_pos s : 0 <= s < SCq L -> 1 <= cnt s <= 2 ^ 63.
+Proof.
+  intros Hs. destruct (q_first_index s Hs) as [Hi E]. pose proof q_last.
+  pose proof (SegSqrt_Proofs.item_lt_count L (idx_of L s 0) HL64 ltac:(lia)) as H1. cbv zeta in H1.
+  unfold seg in E. rewrite E in H1. cbn [fst snd] in H1. destruct H1 as (_ & Hj & Hc & Hk). unfold cnt.
+  split; [lia|]. rewrite Hc. apply Z.pow_le_mono_r; lia.
+Qed.
+
+Lemma q_idx_step s : 0 <= s < SCq L -> idx (s + 1) 0 = idx s 0 + cnt s.
+Proof. intros Hs. apply (SegSqrt_Proofs.capacity_step L s HL64 ltac:(lia)). apply q_fit. lia. Qed.
+
+Lemma q_seg_split i : 0 <= i < maxi -> i = idx (fst (seg i)) 0 + snd (seg i) /\ snd (seg i) < cnt (fst (seg i)).
+Proof.
+  intros Hi. pose proof (SegSqrt_Proofs.item_lt_count L i HL64 ltac:(lia)) as H1. cbv zeta in H1. destruct H1 as (Hs0 & Hj & _ & _).
+  split; [|exact (proj2 Hj)].
+  pose proof (SegSqrt_Proofs.seg_roundtrip L i HL64 ltac:(lia)) as Rt. fold seg idx in Rt, Hs0, Hj.
+  (* GetIndex s j = GetIndex s 0 + j through the exact functions *)
+  unfold seg, idx in *. rewrite SegSqrt_Proofs.gen_seg_of in * by lia.
+  pose proof (item_lt_cnt L ltac:(lia) i ltac:(lia)) as Hjc. pose proof (roundtrip L ltac:(lia) i ltac:(lia)) as Rp.
+  set (s := fst (seg_of L i)) in *. set (j := snd (seg_of L i)) in *.
+  pose proof (idx_offset L ltac:(lia) s j ltac:(lia) Hjc) as Off.
+  pose proof (cnt_pos L s ltac:(lia) ltac:(lia)).
+  assert (Hroot : 0 <= idx_of L s 0) by (destruct (roundtrip_rev L ltac:(lia) s 0 ltac:(lia) ltac:(lia)); assumption).
+  rewrite (SegSqrt_Proofs.gen_idx_of L s 0) by (try lia). lia.
+Qed.
+
+Ltac dq2 := first [exact q_cnt_pos|exact q_idx_step|exact (q_idx_zero L HL)|exact q_seg_split|dq].
+
+Theorem sqrt_ShrinkFit_refines segs n c : Arr_Proofs.ginv seg maxi (SCq L) n c -> idx n 0 < maxi ->
+  exists n', Gen_ArrSqrt.ShrinkFit seg idx segs n c = Ok (tt, n') /\ n' <= n /\
+    (exists st', SegModel.step seg idx (Arr_Proofs.mst n c) SegModel.ShrinkFit = Some st' /\ n' = SegModel.len st') /\
+    Arr_Proofs.ginv seg maxi (SCq L) n' c.
+Proof. intros. eapply (Arr_Proofs.ShrinkFit_refines seg idx maxi (SCq L)); dq2. Qed.
+
+Theorem sqrt_pvDecCount_spec segs n c count : 0 <= count <= c -> c < maxi -> Gen_ArrSqrt.pvDecCount seg cnt segs n c count = Ok (tt, count).
+Proof. intros. eapply (Arr_Proofs.pvDecCount_spec seg idx cnt maxi (SCq L)); dq2. Qed.
+
+Theorem sqrt_RemoveBack_spec segs n c k : 0 <= k <= c -> c < maxi -> Gen_ArrSqrt.RemoveBack seg cnt segs n c k = Ok (tt, c - k).
+Proof. intros. eapply (Arr_Proofs.RemoveBack_spec seg idx cnt maxi (SCq L)); dq2. Qed.
+
+Theorem sqrt_SetCountCrt_down_spec alloc segs n c count : 0 <= count < c -> c < maxi ->
+  Gen_ArrSqrt.SetCountCrt seg idx cnt alloc segs n c count = Ok (tt, segs, n, count).
+Proof. intros. eapply (Arr_Proofs.SetCountCrt_down_spec seg idx cnt alloc maxi (SCq L)); dq2. Qed.
+
+Theorem sqrt_Clear_spec segs n c shrink : Arr_Proofs.ginv seg maxi (SCq L) n c ->
+  Gen_ArrSqrt.Clear seg idx cnt segs n c shrink = Ok (tt, (if shrink then 0 else n), 0).
+Proof. intros. eapply (Arr_Proofs.Clear_spec seg idx cnt maxi (SCq L)); dq2. Qed.
+
+Theorem sqrt_AddBackNogrowCrt_spec segs n c : Arr_Proofs.ginv seg maxi (SCq L) n c -> c + 1 < maxi -> c < idx n 0 ->
+  Gen_ArrSqrt.AddBackNogrowCrt seg segs n c = Ok (tt, c + 1) /\ Arr_Proofs.ginv seg maxi (SCq L) n (c + 1).
+Proof. intros. eapply (Arr_Proofs.AddBackNogrowCrt_spec seg idx maxi (SCq L)); dq2. Qed.
+
+Theorem sqrt_pvGetItem_spec segs n c i : Arr_Proofs.ginv seg maxi (SCq L) n c -> 0 <= i < c ->
+  Gen_ArrSqrt.pvGetItem seg segs n c i = Ok (segs (fst (seg i)) + snd (seg i)) /\
+  0 <= fst (seg i) < n /\ 0 <= snd (seg i) < cnt (fst (seg i)).
+Proof. intros. eapply (Arr_Proofs.pvGetItem_spec seg idx cnt maxi (SCq L)); dq2. Qed.
+
+Theorem sqrt_getitem_stable segs n c segs' n' c' i : Arr_Proofs.ginv seg maxi (SCq L) n c -> Arr_Proofs.ginv seg maxi (SCq L) n' c' ->
+  (forall k, k < n -> segs' k = segs k) -> 0 <= i < c -> i < c' ->
+  Gen_ArrSqrt.pvGetItem seg segs' n' c' i = Gen_ArrSqrt.pvGetItem seg segs n c i.
+Proof. intros. eapply (Arr_Proofs.getitem_stable seg idx cnt maxi (SCq L)); dq2. Qed.
+
 Theorem sqrt_ginv_empty : Arr_Proofs.ginv seg maxi (SCq L) 0 0.
 Proof. split; [lia|]. apply (SegModel_Inst.sqrt_inv_empty L HL). Qed.
 End Sqrt.
@@ -124,4 +207,63 @@ Theorem cnst_AddBackCrt_refines alloc segs n c : Arr_Proofs.ginv seg maxi (SCc L
   exists segs' n', Gen_ArrCnst.AddBackCrt seg alloc segs n c = Ok (tt, segs', n', c + 1) /\
     (forall i, i < n -> segs' i = segs i) /\ (n' = n \/ (n' = n + 1 /\ segs' n = alloc n)) /\ Arr_Proofs.ginv seg maxi (SCc L) n' (c + 1).
 Proof. intros. eapply (Arr_Proofs.AddBackCrt_refines seg idx alloc maxi (SCc L)); dc. Qed.
+Let cnt := fun _ : Z => Gen_SegCnst.GetItemCount L.
+
+Lemma c_fit sc : 0 <= sc <= SCc L -> sc * 2 ^ L < 2 ^ 64.
+Proof.
+  intros Hsc.
+  assert (Hq : ((maxi - 1) / 2 ^ L) * 2 ^ L <= maxi - 1).
+  { pose proof (Z.div_mod (maxi - 1) (2 ^ L) ltac:(lia)). pose proof (Z.mod_pos_bound (maxi - 1) (2 ^ L) HB). lia. }
+  assert (HB62 : 2 ^ L <= 2 ^ 62) by (apply Z.pow_le_mono_r; lia).
+  unfold SCc in Hsc. assert (sc * 2 ^ L <= ((maxi - 1) / 2 ^ L + 1) * 2 ^ L) by nia.
+  unfold maxi in *. change (2 ^ 64) with (4 * 2 ^ 62). lia.
+Qed.
+
+Lemma c_cnt_pos s : 0 <= s < SCc L -> 1 <= cnt s <= 2 ^ 63.
+Proof.
+  intros _. unfold cnt. rewrite SegCnst_Proofs.gen_count by assumption.
+  assert (2 ^ L <= 2 ^ 62) by (apply Z.pow_le_mono_r; lia). change (2 ^ 63) with (2 * 2 ^ 62). lia.
+Qed.
+
+Lemma c_idx_step s : 0 <= s < SCc L -> idx (s + 1) 0 = idx s 0 + cnt s.
+Proof.
+  intros Hs. unfold idx, cnt. pose proof (c_fit (s + 1) ltac:(lia)). pose proof (c_fit s ltac:(lia)).
+  rewrite !SegCnst_Proofs.gen_idx by lia. rewrite SegCnst_Proofs.gen_count by assumption. lia.
+Qed.
+
+Lemma c_seg_split i : 0 <= i < maxi -> i = idx (fst (seg i)) 0 + snd (seg i) /\ snd (seg i) < cnt (fst (seg i)).
+Proof.
+  intros Hi. unfold seg, idx, cnt. rewrite SegCnst_Proofs.gen_seg by assumption. cbn [fst snd].
+  rewrite SegCnst_Proofs.gen_count by assumption.
+  pose proof (Z.div_mod i (2 ^ L) ltac:(lia)). pose proof (Z.mod_pos_bound i (2 ^ L) HB).
+  assert (0 <= i / 2 ^ L) by (apply Z.div_pos; lia).
+  assert (i / 2 ^ L * 2 ^ L <= i) by lia. assert (maxi < 2 ^ 64) by reflexivity.
+  rewrite SegCnst_Proofs.gen_idx by lia. lia.
+Qed.
+
+Ltac dc2 := first [exact c_cnt_pos|exact c_idx_step|exact (c_idx_zero L HL)|exact c_seg_split|dc].
+
+Theorem cnst_pvDecCount_spec segs n c count : 0 <= count <= c -> c < maxi -> Gen_ArrCnst.pvDecCount seg cnt segs n c count = Ok (tt, count).
+Proof. intros. eapply (Arr_Proofs.pvDecCount_spec seg idx cnt maxi (SCc L)); dc2. Qed.
+
+Theorem cnst_RemoveBack_spec segs n c k : 0 <= k <= c -> c < maxi -> Gen_ArrCnst.RemoveBack seg cnt segs n c k = Ok (tt, c - k).
+Proof. intros. eapply (Arr_Proofs.RemoveBack_spec seg idx cnt maxi (SCc L)); dc2. Qed.
+
+Theorem cnst_Clear_spec segs n c shrink : Arr_Proofs.ginv seg maxi (SCc L) n c ->
+  Gen_ArrCnst.Clear seg idx cnt segs n c shrink = Ok (tt, (if shrink then 0 else n), 0).
+Proof. intros. eapply (Arr_Proofs.Clear_spec seg idx cnt maxi (SCc L)); dc2. Qed.
+
+Theorem cnst_AddBackNogrowCrt_spec segs n c : Arr_Proofs.ginv seg maxi (SCc L) n c -> c + 1 < maxi -> c < idx n 0 ->
+  Gen_ArrCnst.AddBackNogrowCrt seg segs n c = Ok (tt, c + 1) /\ Arr_Proofs.ginv seg maxi (SCc L) n (c + 1).
+Proof. intros. eapply (Arr_Proofs.AddBackNogrowCrt_spec seg idx maxi (SCc L)); dc2. Qed.
+
+Theorem cnst_pvGetItem_spec segs n c i : Arr_Proofs.ginv seg maxi (SCc L) n c -> 0 <= i < c ->
+  Gen_ArrCnst.pvGetItem seg segs n c i = Ok (segs (fst (seg i)) + snd (seg i)) /\
+  0 <= fst (seg i) < n /\ 0 <= snd (seg i) < cnt (fst (seg i)).
+Proof. intros. eapply (Arr_Proofs.pvGetItem_spec seg idx cnt maxi (SCc L)); dc2. Qed.
+
+Theorem cnst_getitem_stable segs n c segs' n' c' i : Arr_Proofs.ginv seg maxi (SCc L) n c -> Arr_Proofs.ginv seg maxi (SCc L) n' c' ->
+  (forall k, k < n -> segs' k = segs k) -> 0 <= i < c -> i < c' ->
+  Gen_ArrCnst.pvGetItem seg segs' n' c' i = Gen_ArrCnst.pvGetItem seg segs n c i.
+Proof. intros. eapply (Arr_Proofs.getitem_stable seg idx cnt maxi (SCc L)); dc2. Qed.
 End Cnst.
